@@ -8,7 +8,7 @@ import ast
 from sa.cfg import CFG
 from sa.guards import Fact, FactFlow, expr_context_facts
 from sa.loader import (
-    AnalysisError, FuncDef, Module, Repo, call_name, last_attr, parent, qualname_of, unparse, walk_body,
+    AnalysisError, FuncDef, Module, Repo, ancestors, call_name, last_attr, parent, qualname_of, unparse, walk_body,
 )  # fmt: skip
 from sa.report import Check, node_text
 from sa.tables import Evaluator, NotStatic, module_const, resolve_name
@@ -576,3 +576,114 @@ def exact_int(check: Check, repo: Repo, rule: str = "EXACT-INT") -> None:
                  "result computed from the argument itself" if not bad else
                  f"`{node_text(bad[0], 60)}` depends on float(<argument>) ({sorted(tainted)}): integers above 2**53 are silently rounded")
     check.floor(rule, 6, "integer / ID producing functions in type/scalars.py")
+
+
+# -- requiredness of an input field is decided in one way --------------------------------------------
+
+OBJECT_SIBLINGS = [
+    ("utilities.coerce_input_value", "coerce_input_value"),
+    ("utilities.coerce_input_value", "coerce_input_literal"),
+    ("utilities.validate_input_value", "validate_input_value_impl"),
+    ("utilities.validate_input_value", "validate_input_literal_impl"),
+    ("utilities.value_to_literal", "value_to_literal"),
+]
+
+
+def field_requiredness(check: Check, repo: Repo, rule: str = "FIELD-REQUIREDNESS") -> None:
+    check.rule(
+        rule,
+        "the five sibling walks over input object fields (coerce value / coerce literal / validate value / "
+        "validate literal / value_to_literal) decide what to do with a field that is not provided - or whose "
+        "variable is not provided - by is_required_input_field(field) and by nothing else: a test of "
+        "is_non_null_type(field.type) ignores the field's default, so a non-null field with a default is "
+        "rejected (or loses its default) in one sibling and accepted in the others",
+    )
+    for mn, fname in OBJECT_SIBLINGS:
+        fn = repo.func(mn, fname)
+        uses = [c for c in walk_body(fn) if isinstance(c, ast.Call) and call_name(c) == "is_required_input_field"]
+        check.ob(rule, fn, f"{fname}: omitted field decided by is_required_input_field", bool(uses),
+                 f"{len(uses)} test(s)" if uses else "no is_required_input_field test: the omitted-field decision is made some other way than in the siblings")
+        other = [
+            c for c in walk_body(fn)
+            if isinstance(c, ast.Call) and call_name(c) in ("is_non_null_type", "is_nullable_type") and c.args
+            and isinstance(c.args[0], ast.Attribute) and c.args[0].attr == "type" and isinstance(c.args[0].value, ast.Name)
+            and c.args[0].value.id in ("field", "field_def", "input_field")
+        ]
+        check.ob(rule, fn, f"{fname}: no nullability test of field.type", not other,
+                 "none" if not other else f"`{unparse(other[0])}` decides on the field's nullability alone (line {other[0].lineno}); siblings use is_required_input_field, which also looks at the default")
+
+
+def variable_arm(check: Check, repo: Repo, rule: str = "VARIABLE-ARM") -> None:
+    check.rule(
+        rule,
+        "in coerce_input_literal the runtime value of a variable enters the result only through the arm "
+        "`isinstance(value_node, VariableNode)` on the function's own node parameter - the arm that rejects "
+        "null under a non-null type; nested positions reach it by recursion. A second place that fetches "
+        "get_coerced_variable_value for an item or a field bypasses that check (null under non-null)",
+    )
+    fn = repo.func("utilities.coerce_input_value", "coerce_input_literal")
+    node_param = fn.args.args[0].arg
+    calls = [c for c in walk_body(fn) if isinstance(c, ast.Call) and call_name(c) == "get_coerced_variable_value"]
+    if not calls:
+        raise AnalysisError("coerce_input_literal: get_coerced_variable_value is not called")
+    for c in calls:
+        guards = [a for a in ancestors(c) if isinstance(a, ast.If)]
+        top = guards[-1] if guards else None
+        ok = top is not None and parent(top) is fn and unparse(top.test) == f"isinstance({node_param}, VariableNode)"
+        check.ob(rule, c, f"coerce_input_literal: {node_text(c, 60)}", ok,
+                 f"inside the top-level arm `isinstance({node_param}, VariableNode)`" if ok else
+                 f"variable value fetched under `{unparse(guards[0].test) if guards else 'no test'}`: this position is not covered by the null-under-non-null rejection of the variable arm")
+    arm = next((s for s in fn.body if isinstance(s, ast.If) and unparse(s.test) == f"isinstance({node_param}, VariableNode)"), None)
+    has_null_check = arm is not None and any(
+        isinstance(c, ast.Call) and call_name(c) == "is_non_null_type" for c in ast.walk(arm)
+    ) and any(isinstance(c, ast.Compare) and "None" in unparse(c) for c in ast.walk(arm))
+    check.ob(rule, arm or fn, "variable arm rejects null for a non-null type", has_null_check,
+             "tests `is None` together with is_non_null_type" if has_null_check else "the variable arm lacks the null / non-null test")
+
+
+def int_atoms(check: Check, repo: Repo, rule: str = "INT-ATOMS") -> None:
+    check.rule(
+        rule,
+        "the three value-side functions of Int (result coercion, input value coercion, value -> literal) "
+        "accept the same values: each of them - in its own body or in the helpers it calls - excludes bool, "
+        "decides integrality of a float by comparing int(x) with x (or x.is_integer()), requires finiteness "
+        "and tests the 32-bit range. A sibling without the integrality test cannot accept 5.0 where the "
+        "others do, so a value accepted by input coercion has no literal (round trip fails)",
+    )
+    sc = scalar_coercers(repo)
+    mod = repo.mod("type.scalars")
+    roles = ("coerce_output_value", "coerce_input_value", "value_to_literal")
+    for role in roles:
+        fn = sc["Int"].get(role)
+        if fn is None:
+            raise AnalysisError(f"Int.{role} is not a module-level function")
+        bodies = [fn]
+        for _ in range(2):
+            for b in list(bodies):
+                for c in walk_body(b):
+                    if isinstance(c, ast.Call) and isinstance(c.func, ast.Name):
+                        r = resolve_name(repo, module_of_fn(repo, b), c.func.id)
+                        if r is not None and isinstance(r[0].defs.get(r[1]), FuncDef) and r[0].defs[r[1]] not in bodies:
+                            bodies.append(r[0].defs[r[1]])
+        text_nodes = [n for b in bodies for n in walk_body(b)]
+        atoms = {
+            "excludes bool": any(isinstance(n, ast.Call) and call_name(n) == "isinstance" and len(n.args) == 2 and "bool" in unparse(n.args[1]) for n in text_nodes),
+            "integrality (int(x) vs x)": any(
+                (isinstance(n, ast.Compare) and any(isinstance(x, ast.Call) and call_name(x) == "int" for x in [n.left, *n.comparators])
+                 and isinstance(n.ops[0], (ast.Eq, ast.NotEq)))
+                or (isinstance(n, ast.Call) and isinstance(n.func, ast.Attribute) and n.func.attr == "is_integer")
+                for n in text_nodes),
+            "finiteness": any(isinstance(n, ast.Call) and call_name(n) in ("isfinite", "math.isfinite") for n in text_nodes)
+            or any(isinstance(n, ast.Call) and isinstance(n.func, ast.Attribute) and n.func.attr == "is_integer" for n in text_nodes),
+            "32-bit range": any(isinstance(n, ast.Compare) and "GRAPHQL_MIN_INT" in unparse(n) and "GRAPHQL_MAX_INT" in unparse(n) for n in text_nodes),
+        }
+        for a, ok in atoms.items():
+            check.ob(rule, fn, f"Int.{role} = {fn.name}: {a}", ok,
+                     f"present (in {[b.name for b in bodies][:4]})" if ok else
+                     f"neither {fn.name} nor its helpers {[b.name for b in bodies[1:]][:4]} contain this test; the sibling roles do")
+
+
+def module_of_fn(repo: Repo, fn: ast.AST) -> Module:
+    from sa.loader import module_of
+
+    return module_of(fn)
